@@ -406,7 +406,97 @@ fn run_from_file_lengths(ctx: &mut Ctx) {
     }
 }
 
+/// session-key packets (PKESK / SKESK) with octets left over behind what their parser reads, also
+/// beyond the 8 KiB the body reader buffers: the message parser must find the next packet where the
+/// framing says it is — the encrypted-data packet it reports is a packet of the stream, never octets
+/// from inside an ESK body (oracle only; the framing-level split is `real_stream`)
+fn run_esk_leftovers(ctx: &mut Ctx) {
+    use pgp::composed::Message;
+    let planted: [u8; 7] = [0xD2, 0x05, 0x01, 0xAA, 0xBB, 0xCC, 0xDD];
+    let pkesk: Vec<u8> = { let mut b = vec![3u8]; b.extend_from_slice(&[9u8; 8]); b.extend_from_slice(&[1, 0, 1, 1]); b };
+    let skesk: Vec<u8> = vec![4u8, 7, 3, 8, 1, 2, 3, 4, 5, 6, 7, 8, 96];
+    let real_seipd: Vec<u8> = { let mut b = vec![1u8]; b.extend_from_slice(&[0x77; 40]); frame::frame_fixed(true, 18, 1, &b).unwrap_or_default() };
+    for (name, tag, esk) in [("pkesk", 1u8, &pkesk), ("skesk", 3u8, &skesk)] {
+        for body_len in [esk.len(), esk.len() + 1, esk.len() + 100, 8191, 8192, 8193, 8192 + 7, 8192 + 64, 16384 + 7, 20000] {
+            for plant_at in [None, Some(8192usize), Some(esk.len()), Some(body_len.saturating_sub(7))] {
+                for follow in [false, true] {
+                    let mut body = esk.clone();
+                    body.resize(body_len, 0xE1);
+                    if let Some(at) = plant_at {
+                        if at >= esk.len() && at + 7 <= body.len() {
+                            body[at..at + 7].copy_from_slice(&planted);
+                        } else {
+                            continue;
+                        }
+                    }
+                    let Some(mut stream) = frame::frame_fixed(true, tag, if body.len() < 192 { 1 } else if body.len() < 8384 { 2 } else { 5 }, &body) else { continue };
+                    if follow {
+                        stream.extend_from_slice(&real_seipd);
+                    }
+                    let split = real_stream(&stream);
+                    let r = guarded(|| match Message::from_bytes(&stream[..]) {
+                        Ok(Message::Encrypted { edata, .. }) => {
+                            let h = edata.packet_header();
+                            format!("encrypted:{}:{:?}", u8::from(h.tag()), h.packet_length())
+                        }
+                        Ok(_) => "other".to_string(),
+                        Err(_) => "err".to_string(),
+                    });
+                    let input = format!("{name} body_len={body_len} planted_at={plant_at:?} followed_by_seipd={follow} framing_split={split}");
+                    let ok = match &r {
+                        Err(_) => false,
+                        Ok(a) if a.starts_with("encrypted:") => follow && *a == format!("encrypted:18:Fixed({})", real_seipd.len() - 2),
+                        Ok(_) => true,
+                    };
+                    ctx.oracle("message_parser_splits_at_framing", "Message::from_bytes over ESK packets with left-over octets", &input, ok, &format!("{r:?}"));
+                    ctx.stat("esk_leftover");
+                }
+            }
+        }
+    }
+}
+
+/// `PacketHeader` parsed from any admissible length form and written back through its own
+/// `Serialize` impl: what is written parses to the same header, and `write_len` tells its size
+fn run_header_writeback(ctx: &mut Ctx) {
+    use pgp::ser::Serialize;
+    use pgp::packet::PacketHeader;
+    for fmt in [0u8, 1] {
+        for tag in [2u8, 6, 11] {
+            for form in [0u8, 1, 2, 5] {
+                for n in [0usize, 5, 191, 192, 255, 256, 8383, 8384, 65535, 65536, 100_000] {
+                    // header only: build it by hand from the length encoders
+                    let hdr: Option<Vec<u8>> = if fmt == 1 {
+                        frame::new_len(form, n).map(|l| { let mut h = vec![0xC0 | tag]; h.extend(l); h })
+                    } else {
+                        frame::old_len(form, n).map(|l| { let mut h = vec![0x80 | (tag << 2) | form]; h.extend(l); h })
+                    };
+                    let Some(hdr) = hdr else { continue };
+                    let r = guarded(|| {
+                        let h = PacketHeader::try_from_reader(&mut &hdr[..]).ok()?;
+                        let out = h.to_bytes().ok()?;
+                        let wl = h.write_len();
+                        let back = PacketHeader::try_from_reader(&mut &out[..]).ok();
+                        Some((out.clone(), wl, back.map(|b| (u8::from(b.tag()), format!("{:?}", b.packet_length()))), (u8::from(h.tag()), format!("{:?}", h.packet_length()))))
+                    });
+                    let input = format!("header={} (fmt={fmt} tag={tag} form={form} len={n})", hx(&hdr));
+                    match r {
+                        Ok(Some((out, wl, back, orig))) => {
+                            ctx.oracle("written_back_packet_is_legal", "PacketHeader::try_from_reader -> to_bytes", &input, back.as_ref() == Some(&orig) && wl == out.len(), &format!("wrote {} (write_len {wl}), which reads as {back:?}; parsed {orig:?}", hx(&out)));
+                        }
+                        Ok(None) => ctx.stat("header_writeback:refused"),
+                        Err(p) => ctx.oracle("written_back_packet_is_legal", "PacketHeader::try_from_reader -> to_bytes", &input, false, &format!("panic {p}")),
+                    }
+                    ctx.stat("header_writeback");
+                }
+            }
+        }
+    }
+}
+
 pub fn run(ctx: &mut Ctx) {
+    run_header_writeback(ctx);
+    run_esk_leftovers(ctx);
     run_from_file_lengths(ctx);
     run_streams(ctx);
     let lens: Vec<usize> = if ctx.thorough() {
